@@ -13,6 +13,7 @@ static char prefix[64];
 static volatile long sig_count;
 static void on_sig(int s) { (void)s; __sync_fetch_and_add(&sig_count, 1); }
 
+static long long st_long_sleeps;
 static long long st_cases, st_inconclusive, st_signals_in_calls, st_inj_cases, st_inj_fired;
 static long st_by_kind[16];
 static const char *cur = "-";
@@ -66,7 +67,10 @@ static double ms_since(uint64_t t0) { return (double)(vh_now_ns() - t0) / 1e6; }
 /* one real-signal case; returns 1 if signals were delivered during the call */
 static int real_sleep(vh_rng *r) {
 	static const int mss[] = { 1, 5, 20, 60, 150, 400 }; int ms = mss[vh_below(r, 6)], rc; long s0 = sig_count; uint64_t t0; double el;
+	static int long_done;
 	cur = "p_uthread_sleep";
+	/* once per run: a sleep of more than a second interrupted early, so that the remaining time still has a whole-second part */
+	if (!long_done && vh_chance(r, 50)) { long_done = 1; ms = vh_chance(r, 50) ? 1150 : 2300; st_long_sleeps++; }
 	storm_start(r, 40, 50, ms * 400 > 5000 ? 5000 : ms * 400 + 60);
 	t0 = vh_now_ns(); rc = p_uthread_sleep((puint32)ms); el = ms_since(t0);
 	storm_stop();
@@ -168,6 +172,7 @@ static void inj_case(int id, long k, int burst, uint64_t seed) {
 	switch (id) {
 	case W_CLOCK_NANOSLEEP: case W_NANOSLEEP: {
 		int ms = 3 + (int)(seed % 20), rc; uint64_t t0; double el;
+		if (k == 1 && burst == 1) { ms = 1000 + (int)(seed % 300); st_long_sleeps++; }      /* remaining time reported by the interrupted call has a seconds part */
 		cur = "p_uthread_sleep";
 		w_plan(id, WM_AT, k, burst, WK_EINTR, seed);
 		t0 = vh_now_ns(); rc = p_uthread_sleep((puint32)ms); el = ms_since(t0);
@@ -329,8 +334,8 @@ int main(int argc, char **argv) {
 		for (id = 0; id < (int)(sizeof ids / sizeof ids[0]); id++) for (k = 1; k <= K; k++) for (b = 1; b <= maxburst; b++) { if (vh_nviol >= vh_max_viol) break; inj_case(ids[id], k, b, vh_next(&r)); }
 	}
 	p_libsys_shutdown();
-	printf("{\"ev\":\"stats\",\"mode\":\"%s\",\"signal_cases\":%lld,\"cases_with_signal_during_call\":%lld,\"cases_without\":%lld,\"signals_handled\":%ld,\"inj_cases\":%lld,\"inj_fired\":%lld,\"fired_by_call\":{",
-	       mode, st_cases, st_signals_in_calls, st_inconclusive, (long)sig_count, st_inj_cases, st_inj_fired);
+	printf("{\"ev\":\"stats\",\"mode\":\"%s\",\"signal_cases\":%lld,\"cases_with_signal_during_call\":%lld,\"cases_without\":%lld,\"signals_handled\":%ld,\"inj_cases\":%lld,\"inj_fired\":%lld,\"sleeps_longer_than_1s\":%lld,\"fired_by_call\":{",
+	       mode, st_cases, st_signals_in_calls, st_inconclusive, (long)sig_count, st_inj_cases, st_inj_fired, st_long_sleeps);
 	{ int first = 1; for (id = 0; id < 16 && id < W_N; id++) if (st_by_kind[id]) { printf("%s\"%s\":%ld", first ? "" : ",", w_names[id], st_by_kind[id]); first = 0; } }
 	printf("},\"viol\":%d,\"wall\":%.2f}\n", vh_nviol, vh_now() - t0);
 	return 0;
